@@ -100,6 +100,7 @@ class RecordingPool:
         self.order = order
         self.map_calls = []
         self.child_logs = []
+        self.child_states = []     # (index of the map call, initial state of the generator handed to each task)
 
     def map(self, func, tasks, callback=None):
         tasks = list(tasks)
@@ -110,6 +111,7 @@ class RecordingPool:
             if len(t) and isinstance(t[-1], np.random.Generator):
                 g = RecordingGenerator(t[-1].bit_generator)
                 gens.append(g)
+                self.child_states.append((len(self.map_calls), repr(t[-1].bit_generator.state)))
                 t = t[:-1] + (g,)
             wrapped.append(t)
         idx = list(range(len(wrapped)))
